@@ -124,7 +124,15 @@ def main(argv=None):
     st_cases = 0
     st_mismatch = []
     results = []
+    os.environ['VF_MAIN_PID'] = str(os.getpid())      # workers exit on their own if this process disappears
     with ctx.Pool(processes=a.jobs, maxtasksperchild=1) as pool:
+        import signal
+
+        def _bye(signum, frame):
+            pool.terminate()
+            os._exit(143)
+        signal.signal(signal.SIGTERM, _bye)
+        signal.signal(signal.SIGINT, _bye)
         st_async = None
         if not a.no_selftest:
             seen = set()
